@@ -169,16 +169,8 @@ def no_step_lost(chk: Check) -> None:
            'interruption as cookie', kind='deferred-pause-action')
     chk.ob('DOM-no-step-lost', dp, dp.params[1:3] == ['state_msg', 'next_state'] or len(dp.params) >= 3, '_do_pause takes (message, next state)', kind='signature')
     # Waiting.execute re-arms the waiting future before re-raising
-    we = prog.func('process_states.Waiting.execute')
-    rearm = False
-    for t in [n for n in ast.walk(we.node) if isinstance(n, ast.Try)]:
-        for h in t.handlers:
-            if h.type is not None and unparse(h.type).split('.')[-1] == 'Interruption':
-                assigns = [i for i, s in enumerate(h.body) if isinstance(s, ast.Assign) and norm(s.targets[0]) == 'self._waiting_future'
-                           and isinstance(s.value, ast.Call) and norm(s.value.func).split('.')[-1] == 'Future']
-                raises = [i for i, s in enumerate(h.body) if isinstance(s, ast.Raise)]
-                rearm = bool(assigns) and bool(raises) and assigns[0] < raises[0]
-    chk.ob('DOM-no-step-lost', we, rearm, 'an interrupted waiting step can be executed again (fresh waiting future before re-raising)', kind='rearm')
+    from .c06 import rearm_after_interruption
+    rearm_after_interruption(chk, 'DOM-no-step-lost')
     fin = [t for t in ast.walk(dp.node) if isinstance(t, ast.Try) and any(isinstance(s, ast.Assign) and norm(s.targets[0]) == PAUSING and norm(s.value) == 'None' for s in t.finalbody)]
     chk.ob('PAIR-pausing-reset', dp, bool(fin), '_pausing is reset on every exit of _do_pause', kind='finally-reset')
 
